@@ -482,13 +482,32 @@ def check_id_helper(ctx, rule="WIRE-H"):
     eng.on_call = on_call
     from engine.state import State
     from engine.values import Ref
-    st0 = State()
-    args = eng.symbolic_args(b, names=["self", "s", "max"])
-    self_ty = eng.T.t(b["locals"][1]["ty"]).get("to")
-    eng.declare("len(buf0)", 0, eng.len_max)
-    st0.locs["obj:self"] = Cont("bytesmut", "buf0", Lin.sym("len(buf0)"), None, (), self_ty)
-    args[0] = Ref("obj:self", (), True)
-    outs = eng.call_path(ID_HELPER, args, st=st0)
+    from engine import cfg as _cfg
+    # a generic `s` (e.g. `impl AsRef<str>`): analysed once per instantiation found at the call sites
+    gens = [g for g in (b.get("generics") or []) if not g.startswith("const ") and not g.startswith("'")]
+    subs = [{}]
+    if gens:
+        seen_i = {}
+        for p_, body_ in F.bodies.items():
+            if body_["derived"]:
+                continue
+            for blk_ in body_["blocks"]:
+                f_ = _cfg.callee_of(blk_["term"])
+                if f_ and (f_.get("resolved") == ID_HELPER or f_["path"].endswith("BytesMutExt::put_zero_terminated_string")):
+                    ta = [a for a in f_.get("resolved_args") or f_.get("args") or [] if isinstance(a, int)]
+                    if len(ta) >= len(gens):
+                        ta = ta[-len(gens):]
+                        seen_i[tuple(F.ty_s(a) for a in ta)] = dict(zip(gens, ta))
+        subs = list(seen_i.values()) or [{}]
+    outs = []
+    for sub in subs:
+        st0 = State()
+        args = eng.symbolic_args(b, sub=sub, names=["self", "s", "max"])
+        self_ty = eng.T.t(b["locals"][1]["ty"]).get("to")
+        eng.declare("len(buf0)", 0, eng.len_max)
+        st0.locs["obj:self"] = Cont("bytesmut", "buf0", Lin.sym("len(buf0)"), None, (), self_ty)
+        args[0] = Ref("obj:self", (), True)
+        outs += eng.call_path(ID_HELPER, args, st=st0, sub=sub)
     ok = len(outs) >= 1
     used_fill = False
     mx, ls = Lin.sym("max"), Lin.sym("len(s)")
@@ -498,18 +517,20 @@ def check_id_helper(ctx, rule="WIRE-H"):
         if got is None:
             ok = False
             continue
-        tail = [t for t in got if not (t[0] == "BYTES" and t[1] == "*self")]
         # the buffer's previous content is unknown: look at what was appended
-        app = [t for t in got if t[0] != "BYTES" or t[1] == "s"]
+        sb = "*s" if any(t[0] == "BYTES" and t[1] == "*s" for t in got) else "s"   # `s: &String` is read through one more deref
+        ls = Lin.sym("len(%s)" % sb)
+        whole = ("BYTES", sb, "0", "len(%s)" % sb)
+        app = [t for t in got if t[0] != "BYTES" or t[1] == sb]
         fill_ok = False
-        if len(app) == 2 and app[0] == ("BYTES", "s", "0", "len(s)") and app[1][0] == "FILL" and app[1][1] == "0":
+        if len(app) == 2 and app[0] == whole and app[1][0] == "FILL" and app[1][1] == "0":
             # resize form: the count must be max - len(s), saturating at 0
             cnt = app[1][2]
             term = eng.sym_terms.get(cnt)
             if cnt == repr(mx.sub(ls)) or (term is not None and term[0] == "sat" and term[1] == "Sub" and term[2] == mx and term[3] == ls):
                 fill_ok = True
                 used_fill = True
-        if not fill_ok and app not in ([("BYTES", "s", "0", "len(s)")], [("BYTES", "s", "0", "len(s)"), NUL_REP]):
+        if not fill_ok and app not in ([whole], [whole, NUL_REP]):
             ok = False
     good_range = (len(ranges) >= 1 and all(lo == Lin.const(0) and hi == mx.sub(ls) and s.holds(mx.sub(ls).sub(Lin.const(1)), eng) for lo, hi, s in ranges)) or (used_fill and not ranges)
     if ok and good_range:
@@ -642,15 +663,24 @@ def check_message(ctx, rule="WIRE-M"):
         return [(st, new_cont(eng_, "vec", ln.lin, None, (("sub", tag, order, srcname),), ret_ty(eng_, site), hint=tag))]
 
     from engine.values import Ref
+    from engine.state import State
+    import itertools
     eng.on_call = on_call
-    outs = eng.call_path(MSG_AS_BYTES, eng.symbolic_args(b, names=["self"]))
+    eng.merge_returns = True
     seen = set()
-    for st, rv in outs:
-        kd = key_dict(st)
-        sh, eh, en = kd.get("*self.storage_header"), kd.get("*self.extended_header"), kd.get("*self.header.endianness")
-        got = tokens(rv) if isinstance(rv, Cont) and rv.segs is not None else [("?",)]
-        if None in (sh, eh, en):
-            R.violation(rule, MSG_AS_BYTES + "|partition", "message writer exit is not partitioned on storage header / extended header presence and endianness (%s)" % kd, function=MSG_AS_BYTES, kind="UNRECOGNISED-SHAPE")
+    # the rule constructs a message of each of the 8 shapes (storage header x extended header x endianness), so the
+    # verdict does not depend on how (or in which helper, or through which dispatch mechanism) the writer branches
+    for sh, eh, en in itertools.product(("Some", "None"), ("Some", "None"), ("Big", "Little")):
+        st0 = State()
+        args = eng.symbolic_args(b, names=["self"])
+        a0 = eng.M.force(st0, args[0])
+        ok = isinstance(a0, Ref) and restrict(eng, st0, a0.loc, ["storage_header"], sh) and restrict(eng, st0, a0.loc, ["extended_header"], eh) and restrict(eng, st0, a0.loc, ["header", "endianness"], en)
+        if not ok:
+            R.violation(rule, MSG_AS_BYTES + "|partition", "cannot construct a Message input with storage_header=%s extended_header=%s endianness=%s" % (sh, eh, en), function=MSG_AS_BYTES, kind="UNRECOGNISED-SHAPE")
+            continue
+        outs = eng.call_path(MSG_AS_BYTES, [a0], st=st0)
+        if not outs:
+            R.violation(rule, MSG_AS_BYTES + "|partition", "no exit of the message writer for storage_header=%s extended_header=%s endianness=%s" % (sh, eh, en), function=MSG_AS_BYTES, kind="UNRECOGNISED-SHAPE")
             continue
         seen.add((sh, eh, en))
         want = []
@@ -660,8 +690,10 @@ def check_message(ctx, rule="WIRE-M"):
         if eh == "Some":
             want.append(("SUB", "'extended'", "''", "'self.extended_header'"))
         want.append(("SUB", "'payload'", "'%s'" % ("BigEndian" if en == "Big" else "LittleEndian"), "'self.payload'"))
-        g2 = [t[:4] for t in got]
-        compare(ctx, rule, MSG_AS_BYTES, "storage=%s ext=%s endianness=%s" % (sh, eh, en), g2, want, "message")
+        for st, rv in outs:
+            got = tokens(rv) if isinstance(rv, Cont) and rv.segs is not None else [("?",)]
+            g2 = [t[:4] for t in got]
+            compare(ctx, rule, MSG_AS_BYTES, "storage=%s ext=%s endianness=%s" % (sh, eh, en), g2, want, "message")
     if len(seen) != 8:
         R.violation(rule, MSG_AS_BYTES + "|partitions", "expected 8 message shapes (storage x extended x endianness), saw %d" % len(seen), function=MSG_AS_BYTES, kind="UNRECOGNISED-SHAPE")
 
